@@ -20,6 +20,7 @@ BUDGET = {
     "quick": {"workers": 16, "cases": 140, "secs": 60, "case_secs": 90, "min_cases": 1120},
     "thorough": {"workers": 16, "rounds": 4, "cases": 260, "secs": 420, "case_secs": 90, "min_cases": 12800},
 }
+SIBLINGS = True  # consecutive cases with identical structure and different gate types
 ANCHORS = ["sat:model_count", "props:signal_probability", "sat:approx_model_count"]
 
 
